@@ -14,7 +14,7 @@ CHECKS = {
  "C03": ("exploration", "property-based testing (proptest): groups of representations of one element (torsion shift, rescaling, affine round trip, (r-1)*(-P)) through every byte-producing path vs. the model's encodeSpec (metamorphic + differential oracle)",
          "Generated-input search: every explored representation encodes to the model's canonical bytes through 16 ark and 7 min paths; injectivity on independent pairs.",
          "Trusts the BigUint encodeSpec port and the read-only coordinate hook.", "5/C03"),
- "C04": ("exploration", "model-based property testing (proptest): random straight-line programs over all 61 ark / 14 min operator forms, compared after every instruction with an affine big-integer group-law model; algebraic-law cases through the library's equality",
+ "C04": ("exploration", "model-based property testing (proptest): random straight-line programs over all 69 ark / 16 min operator forms, compared after every instruction with an affine big-integer group-law model; algebraic-law cases through the library's equality",
          "Generated-input search over programs and operand pairs incl. identity, 2-torsion representative, P with -P, P with P; per-form execution counts in the evidence (a form never run fails the run as a harness error).",
          "Trusts the affine addition law in the model and the coordinate hook.", "5/C04"),
  "C05": ("exploration", "property-based testing (proptest): element recipes x structured scalars (boundary values, powers of two, all-ones limbs, limb vectors beyond the modulus) x all 20+5+6 multiplication forms vs. an independent big-integer double-and-add; module laws and r*P identity predicates",
